@@ -95,16 +95,20 @@ class FieldMap(dict):
     def __init__(self):
         super().__init__()
         self.by_obj = defaultdict(set)
+        self.keyed = defaultdict(set)  # object -> its "k:<constant key>" fields
 
     def __missing__(self, key):
         v = set()
         self[key] = v
         self.by_obj[key[0]].add(key[1])
+        if isinstance(key[1], str) and key[1].startswith("k:"):
+            self.keyed[key[0]].add(key[1])
         return v
 
     def clear(self):
         super().clear()
         self.by_obj.clear()
+        self.keyed.clear()
 
     def attrs_of(self, o):
         return list(self.by_obj.get(o, ()))
@@ -911,9 +915,8 @@ class Analysis:
             else:
                 out |= self.F[(o, "[]")]
                 if o.kind == "cont":
-                    for a in self.F.attrs_of(o):
-                        if isinstance(a, str) and a.startswith("k:"):
-                            out |= self.F[(o, a)]
+                    for a in self.F.keyed.get(o, ()):
+                        out |= self.F[(o, a)]
                 elif o.kind == "inst":
                     # an instance whose class implements the container protocol itself: what __getitem__ /
                     # __next__ return and what the iterator returned by __iter__ yields
@@ -1244,8 +1247,8 @@ class Analysis:
 
     def cont_method(self, o, name, node, args, kwargs, A):
         el = self.F[(o, "[]")]
-        if any(a.kind in ("func", "bound") or (a.kind == "cont" and a.key[-1] == "partial") for a in A):
-            self.invoke_callbacks(A | {o}, node, self.cur)  # xs.sort(key=f), ...
+        if name == "sort" and "key" in kwargs:
+            self.invoke_callbacks(kwargs["key"][1] | {o}, node, self.cur)  # xs.sort(key=f) calls f on the elements
         if name in ("setdefault", "__setitem__", "insert"):
             # first argument is a key / position, not an element
             self.mutate({o}, node, f".{name}()")
